@@ -166,20 +166,33 @@ void h_cfg_free(void)
 
 /* contract::cfg_getopt_leaf(cfg, name): the FIRST option whose name equals name - letter case ignored iff the
  * context is case-insensitive - or NULL; nothing is modified */
+static _Bool name_eq2(const char *a, const char *b, _Bool nocase)
+{
+	for (int i = 0; i < 3; i++) {
+		char x = nocase ? (char)cfgv_lc((unsigned char)a[i]) : a[i], y = nocase ? (char)cfgv_lc((unsigned char)b[i]) : b[i];
+		if (x != y) return 0;
+		if (x == 0) return 1;
+	}
+	return 1;
+}
+char in_n0[3], in_n1[3], in_q[3];
 void h_getopt_leaf(void)
 {
-	cfg_t cfg; cfg_opt_t opts[3]; char q[2]; int want = -1; cfg_opt_t *r; _Bool nocase;
+	cfg_t cfg; cfg_opt_t opts[3]; int want = -1; cfg_opt_t *r; _Bool nocase;
 	memset(&cfg, 0, sizeof cfg); memset(opts, 0, sizeof opts);
 	cfg.flags = nondet_bool() ? (CFGF_NOCASE | CFGF_IGNORE_UNKNOWN) : CFGF_COMMENTS;
 	nocase = (cfg.flags & CFGF_NOCASE) != 0;
-	opts[0].name = str1(); opts[1].name = str1();
+	/* names of 1..2 bytes (one may be a prefix of the other): lookup is by the WHOLE name */
+	in_n0[0] = nondet_char(); in_n0[1] = nondet_char(); in_n0[2] = 0; in_n1[0] = nondet_char(); in_n1[1] = nondet_char(); in_n1[2] = 0;
+	in_q[0] = nondet_char(); in_q[1] = nondet_char(); in_q[2] = 0;
+	__CPROVER_assume(in_n0[0] != 0 && in_n1[0] != 0);
+	opts[0].name = in_n0; opts[1].name = in_n1;
+	opts[0].flags = nondet_int(); opts[1].flags = nondet_int();      /* an option's own flags (its own NOCASE included) play no part in finding it */
 	cfg.opts = nondet_bool() ? opts : NULL;
-	q[0] = nondet_char(); q[1] = 0;
 	if (cfg.opts)
-		for (int i = 0; i < 2; i++)
-			if (want < 0 && (nocase ? cfgv_lc((unsigned char)q[0]) == cfgv_lc((unsigned char)opts[i].name[0]) : q[0] == opts[i].name[0])) want = i;
-	r = cfg_getopt_leaf(&cfg, q);
-	CHECK("C01,C11", r == (want < 0 ? NULL : &opts[want]), "a name resolves to the first option carrying it (case-insensitively iff the context says so), else to nothing");
+		want = name_eq2(in_q, in_n0, nocase) ? 0 : name_eq2(in_q, in_n1, nocase) ? 1 : -1;
+	r = cfg_getopt_leaf(&cfg, in_q);
+	CHECK("C01,C11,C12", r == (want < 0 ? NULL : &opts[want]), "a name resolves to the first option carrying exactly it (case-insensitively iff the context says so), else to nothing");
 	CANARY("getopt_leaf");
 }
 
